@@ -56,7 +56,8 @@ type Report struct {
 	TimeNowSites        []string `json:"time_now_sites"`
 	RandSites           []string `json:"rand_sites"`
 	AfterFuncSites      []string `json:"afterfunc_sites"`
-	CondWaitSites       []string `json:"cond_wait_sites"`
+	CondWaitSites       []string `json:"cond_uncontrolled_sites"`
+	CondRewritten       int      `json:"cond_calls_rewritten"`
 	WaitGroupWaitSites  []string `json:"waitgroup_wait_sites"`
 	SkippedPackages     []string `json:"skipped_packages"`
 	TypeErrors          []string `json:"type_errors"`
@@ -450,8 +451,13 @@ func instrumentFile(p *packages.Package, f *ast.File, path string) *fileEdits {
 					rep.LockUncontrolled = append(rep.LockUncontrolled, where(x.Pos()))
 				}
 			}
-			if _, name, ok := syncCall(x, "Cond"); ok && name == "Wait" {
-				rep.CondWaitSites = append(rep.CondWaitSites, where(x.Pos()))
+			if recv, name, ok := syncCall(x, "Cond"); ok && (name == "Wait" || name == "Signal" || name == "Broadcast") {
+				if arg, ok := recvArg(recv); ok {
+					fe.add(off(x.Fun.Pos()), off(x.Rparen)+1, "verifsim.Cond"+name+"("+arg+")")
+					rep.CondRewritten++
+				} else {
+					rep.CondWaitSites = append(rep.CondWaitSites, where(x.Pos()))
+				}
 			}
 			if _, name, ok := syncCall(x, "WaitGroup"); ok && name == "Wait" {
 				rep.WaitGroupWaitSites = append(rep.WaitGroupWaitSites, where(x.Pos()))
